@@ -481,9 +481,14 @@ def descriptor_generator(obj) -> [str, BaseObservable]:
     """Yield the name and signal_types for each Observable defined on obj."""
     # we need to traverse the entire class hierarchy to properly get
     # also observables defined in super classes
+    seen = set()
     for base in type(obj).__mro__:
         base_dict = vars(base)
 
-        for entry in base_dict.values():
+        for name, entry in base_dict.items():
+            if name in seen:
+                # shadowed by a class earlier in the mro
+                continue
+            seen.add(name)
             if isinstance(entry, BaseObservable):
                 yield entry.public_name, entry.signal_types
